@@ -203,13 +203,62 @@ def gen_random(rnd, ops, n_hist, length, depths=(1, 2, 3, 4, 5)):
     return scen
 
 
+BIG = 1 << 20
+PROBES = [0, 1, (1 << 19) - 1, 1 << 19, BIG - 1]
+
+
+def gen_random_big(rnd, ops, n_hist, length):
+    """depth-20 histories through the RLN API: boundary positions of the real tree, few touched leaves"""
+    scen = []
+    for _ in range(n_hist):
+        scen.append({"c": "reset", "d": 20, "probe": PROBES})
+        low = rnd.random() < 0.5          # half of the histories stay below 300 so that the empty list is observable
+        for _ in range(length):
+            c = rnd.choice(ops)
+            v = lambda: rnd.choice([0, 1, 2, 3, 7, 15])
+            if low:
+                pos = lambda: rnd.choice([0, 1, 2, 3, 255, 256, rnd.randrange(300), rnd.randrange(16)])
+            else:
+                pos = lambda: rnd.choice([0, 1, 255, (1 << 19) - 1, 1 << 19, (1 << 19) + 1, BIG - 2, BIG - 1, BIG, rnd.randrange(300)])
+            if c == "set":
+                scen.append({"c": "set", "i": pos(), "v": v()})
+            elif c == "delete":
+                scen.append({"c": "delete", "i": pos()})
+            elif c == "append":
+                scen.append({"c": "append", "v": v()})
+            elif c == "range":
+                # (pmtree walks the whole right half for a range that starts near the end of the tree: keep
+                #  accepted ranges away from there, rejected ones are fine)
+                n = rnd.choice([0, 1, 2, 3, 5])
+                st = rnd.choice([0, 1, 255, (1 << 19) - 1, 1 << 19, (1 << 19) + 1, BIG, rnd.randrange(300)]) if not low else pos()
+                if st == BIG - 1 and n == 1:
+                    n = 2
+                scen.append({"c": "range", "s": st, "vs": [v() for _ in range(n)]})
+            elif c == "override":
+                n = rnd.choice([0, 0, 1, 2, 3])
+                k = rnd.choice([0, 1, 1, 2, 3])
+                rem = [rnd.choice([0, 1, 2, 3, 255, rnd.randrange(256), rnd.randrange(16)]) for _ in range(k)]
+                st = rnd.choice([0, 1, 2, 3, 255, 256, rnd.randrange(300), rnd.randrange(16)])
+                if not low and (n == 0 or k == 0):
+                    st = rnd.choice([st, (1 << 19) - 1, 1 << 19, BIG])
+                scen.append({"c": "override", "s": st, "vs": [v() for _ in range(n)], "rem": rem})
+            elif c == "init":
+                n = rnd.choice([0, 1, 2, 4])
+                scen.append({"c": "init", "vs": [v() for _ in range(n)]})
+    return scen
+
+
 def execute(binary, wd, name, scenario, targets, tamper_every=1):
     sp = os.path.join(wd, f"{name}.scen.ndjson")
     tp = os.path.join(wd, f"{name}.trace.ndjson")
     tb = os.path.join(wd, f"{name}.tab.json")
     write_ndjson(sp, scenario)
-    rc, o = run([binary, "tree", "--scenario", sp, "--out", tp, "--tab", tb, "--targets", ",".join(targets),
-                 "--tamper-every", str(tamper_every)], timeout=3600)
+    if targets == ["rln"]:
+        cmd = [binary, "rln", "--scenario", sp, "--out", tp, "--tab", tb]
+    else:
+        cmd = [binary, "tree", "--scenario", sp, "--out", tp, "--tab", tb, "--targets", ",".join(targets),
+               "--tamper-every", str(tamper_every)]
+    rc, o = run(cmd, timeout=3600)
     if rc != 0:
         raise ToolError(f"harness failed ({rc}):\n{o[-3000:]}")
     return tp, tb
@@ -302,7 +351,7 @@ def run_property(prop, tier, out, binary=None):
     quick = tier == "quick"
     scenarios = []
     # 1. spec -> impl, exhaustive transition set at depth 2 (and 1), toured
-    edges2, r2 = gen_edges(wd, "d2", 2, [1, 2] if quick else [0, 1, 2], 2, 5, ops)
+    edges2, r2 = gen_edges(wd, "d2", 2, [1, 2] if (quick and "override" in ops) else [0, 1, 2], 2, 5, ops)
     prefer = {"C08": ["override", "init"]}.get(prop)
     steps = {"C06": 6000, "C08": 5000, "C15": 5000, "C07": 2500}[prop] if quick else len(edges2) + 2000
     sc, cov = walk(edges2, 2, rnd, steps, prefer)
@@ -321,6 +370,13 @@ def run_property(prop, tier, out, binary=None):
     # 3. impl -> spec, seeded random histories with values/lengths outside the model constants
     sc = gen_random(rnd, ops, 40 if quick else 600, 25)
     scenarios.append(("random", sc, ["full", "optimal", "pm"]))
+    # 4. the same through the public RLN API (byte-level I/O; adds batch initialisation): depth-2 tour and depth 20
+    rops = ops + (["init"] if prop != "C06" else [])
+    edges_r, _ = gen_edges(wd, "rln2", 2, [1, 2], 2, 5, rops)
+    scr, covr = walk(edges_r, 2, rnd, 2500 if quick else 12000, prefer)
+    scenarios.append(("rln-tour-d2", scr, ["rln"]))
+    out.notes.append(f"RLN API depth-2 tour: {len(edges_r)} transitions, {covr} covered")
+    scenarios.append(("rln-d20", gen_random_big(rnd, rops, 12 if quick else 120, 25), ["rln"]))
     total_events = 0
     distinct = nontriv = 0
     traces_ok = 0
@@ -342,7 +398,7 @@ def run_property(prop, tier, out, binary=None):
         for line in res["dev"]:
             ev = rows[line - 1]
             desc = (f"{ev['tgt']} depth {ev.get('d')} call {json.dumps(ev.get('op'))} -> {ev.get('res')} "
-                    f"is not a step of the ideal tree ({name}, trace line {line})")
+                    f"is not a step of the ideal tree ({name}, trace line {line}): {res['why'].get(line, '')}")
             out.violation(desc, replay_obj(rows, line, sc, prop))
         if not res["dev"]:
             traces_ok += sum(1 for r in rows if r["t"] == "reset")
